@@ -147,7 +147,7 @@ POOL4 = ['L_diagonal', 'Q_generic', 'C_arch', 'A_ellipse_3to1']
 
 def all_paths(tier):
     out = dict(PATHS)
-    n = 2 if tier == 'quick' else 3
+    n = 3
     for L in range(1, n + 1):
         for w in itertools.product(range(4), repeat=L):
             for close in (None, 'L', 'C'):
